@@ -846,4 +846,126 @@ theorem traverseNode_sem (g : Graph) (H0 hid0 : List Nat) (ctx : Ctx g H0 hid0)
       · exact hevs e he
       · exact StartSem.of_plain (e3 e he)
 
+theorem sem_silent {g : Graph} {H0 : List Nat} {store0 : List (String × List (String × String))} {w : Nat} {s s' : State}
+    (j : Sem g store0 s) (a : Frame s s') :
+    Sem g store0 s' ∧ ∀ e ∈ ([] : List Event), StartSem g H0 store0 w e :=
+  ⟨j.frame a, fun e he => by simp at he⟩
+
+theorem sem_single {g : Graph} {H0 : List Nat} {store0 : List (String × List (String × String))} {w : Nat} {s s' : State}
+    {e : Event} (j : Sem g store0 s) (a : Frame s s') (h : Plain e) :
+    Sem g store0 s' ∧ ∀ e' ∈ [e], StartSem g H0 store0 w e' :=
+  ⟨j.frame a, fun e' he => by rw [List.mem_singleton.mp he]; exact StartSem.of_plain h⟩
+
+/-- one iteration of the loop on the graph visible with `hid0` hidden -/
+theorem iter_sem (g : Graph) (H0 hid0 : List Nat) (ctx : Ctx g H0 hid0)
+    {store0 : List (String × List (String × String))} (sc : SemCtx g store0) (w : Nat) (s : State)
+    (hsub : ∀ h ∈ s.hidden, h ∈ hid0) (t : Trv g H0 s) (j : Sem g store0 s) :
+    Sem g store0 (iter (visH g hid0) s w).1 ∧ ∀ e ∈ (iter (visH g hid0) s w).2.1, StartSem g H0 store0 w e := by
+  have hlen := t.nodesLen
+  have hpath := t.path w
+  unfold iter
+  dsimp only
+  split
+  · split
+    · exact sem_single j (frame_setWd s w _) (plain_exit _)
+    · exact sem_silent j (Frame.refl s)
+  · cases hl : (s.wd w).path.getLast? with
+    | none => exact sem_silent j (Frame.refl s)
+    | some next =>
+      obtain ⟨hnext, hrel⟩ := hpath next (List.mem_of_getLast? hl)
+      dsimp only
+      split
+      · cases hp : pickChild (visH g hid0) s next w with
+        | none => exact sem_silent j (Frame.refl s)
+        | some r => obtain ⟨c, s2⟩ := r; exact sem_silent j (frame_pickChild _ s next w c s2 hp)
+      · by_cases hocc : isOccupied (visH g hid0) s next w = true
+        · simp only [hocc, if_true]
+          refine sem_single j (Frame.trans ?_ (frame_setWd _ w _)) (plain_sleep _ _)
+          split
+          · refine Frame.trans ?_ (frame_setWd _ w _)
+            split
+            · exact frame_setNd s next _ (fun _ => rfl) (fun _ => rfl)
+            · exact Frame.refl s
+          · exact frame_setWd s w _
+        · have hocc' : isOccupied (visH g hid0) s next w = false := by simpa using hocc
+          simp only [hocc', Bool.false_eq_true, if_false]
+          by_cases hready : isSetupReady (visH g hid0) s next w = true
+          · simp only [hready, if_true, Bool.not_true, Bool.false_eq_true, if_false]
+            split
+            · exact traverseNode_sem g H0 hid0 ctx sc w s next _ .up hsub hlen hnext hrel hocc' hready t j
+            · split
+              · exact traverseNode_sem g H0 hid0 ctx sc w s next _ .down hsub hlen hnext hrel hocc' hready t j
+              · exact sem_silent j (Frame.refl s)
+          · have hready' : isSetupReady (visH g hid0) s next w = false := by simpa using hready
+            simp only [hready', Bool.false_eq_true, if_false, Bool.not_false, if_true]
+            split
+            · cases hp : pickParent (visH g hid0) s next w with
+              | none => exact sem_silent j (Frame.refl s)
+              | some r => obtain ⟨c, s2⟩ := r; exact sem_silent j (frame_pickParent _ s next w c s2 hp)
+            · split
+              · cases hp : pickParent (visH g hid0) s next w with
+                | none => exact sem_silent j (Frame.refl s)
+                | some r => obtain ⟨c, s2⟩ := r; exact sem_silent j (frame_pickParent _ s next w c s2 hp)
+              · exact sem_silent j (Frame.refl s)
+
+/-- one iteration including the lazy expansion step -/
+theorem iterL_sem (g : Graph) (H0 : List Nat) (hwf : GraphWF g) (hroot : (g.node g.root).flat = true)
+    {store0 : List (String × List (String × String))} (sc : SemCtx g store0) (w : Nat) (s : State)
+    (t : Trv g H0 s) (j : Sem g store0 s) :
+    Sem g store0 (iterL g s w).1 ∧ ∀ e ∈ (iterL g s w).2.1, StartSem g H0 store0 w e := by
+  unfold iterL
+  split
+  · rw [vis_eq_visH]
+    exact iter_sem g H0 s.hidden ⟨hwf, hroot, t.hidden⟩ sc w s (fun _ h => h) t j
+  · dsimp only
+    have h0 := upd_prepare g H0 w s
+    have t0 := t.upd sc.hO.uniq h0
+    rw [vis_eq_visH]
+    exact iter_sem g H0 (prepare g s w).hidden ⟨hwf, hroot, t0.hidden⟩ sc w _ (fun _ h => h) t0 (j.frame (frame_prepare g s w))
+
+/-- the loop up to the next suspension -/
+theorem runLoop_sem (g : Graph) (H0 : List Nat) (hwf : GraphWF g) (hroot : (g.node g.root).flat = true)
+    {store0 : List (String × List (String × String))} (sc : SemCtx g store0) (w : Nat) (fuel : Nat)
+    (s : State) (evs : List Event) (t : Trv g H0 s) (j : Sem g store0 s) :
+    Sem g store0 (runLoop g w fuel s evs).1 ∧ ∀ e ∈ (runLoop g w fuel s evs).2, e ∈ evs ∨ StartSem g H0 store0 w e := by
+  induction fuel generalizing s evs with
+  | zero =>
+    unfold runLoop
+    refine ⟨j, fun e he => ?_⟩
+    rcases List.mem_append.mp he with he | he
+    · exact Or.inl he
+    · rw [List.mem_singleton.mp he]; exact Or.inr (StartSem.of_plain (plain_raise _ _))
+  | succ fuel ih =>
+    unfold runLoop
+    dsimp only
+    have h0 : Upd g H0 w s (s.setWd w (fun d => { d with pc := .loop })) := upd_setPc g H0 w s .loop rfl
+    have t0 := t.upd sc.hO.uniq h0
+    have j0 : Sem g store0 (s.setWd w (fun d => { d with pc := .loop })) := j.frame (frame_setWd s w _)
+    have he := iterL_sem g H0 hwf hroot sc w _ t0 j0
+    have hu := iterL_ok g H0 hwf hroot w _ t0.hidden t0.nodesLen (t0.path w)
+    rcases hi : iterL g (s.setWd w (fun d => { d with pc := .loop })) w with ⟨s1, e, f⟩
+    rw [hi] at he hu
+    have t1 : Trv g H0 s1 := t0.upd sc.hO.uniq hu.1
+    have hev : ∀ x ∈ evs ++ e, x ∈ evs ∨ StartSem g H0 store0 w x := by
+      intro x hx
+      rcases List.mem_append.mp hx with hx | hx
+      · exact Or.inl hx
+      · exact Or.inr (he.2 x hx)
+    cases f with
+    | cont =>
+      dsimp only
+      obtain ⟨h2, h3⟩ := ih s1 (evs ++ e) t1 he.1
+      refine ⟨h2, fun x hx => ?_⟩
+      rcases h3 x hx with hx | hx
+      · exact hev x hx
+      · exact Or.inr hx
+    | suspend => exact ⟨he.1, hev⟩
+    | exit => exact ⟨he.1, hev⟩
+    | raise what =>
+      dsimp only
+      refine ⟨he.1.frame (frame_setWd s1 w _), fun x hx => ?_⟩
+      rcases List.mem_append.mp hx with hx | hx
+      · exact hev x hx
+      · rw [List.mem_singleton.mp hx]; exact Or.inr (StartSem.of_plain (plain_raise _ _))
+
 end I2N.Trav
